@@ -122,6 +122,18 @@ where
                 LTermInner::Val(LValue::Number(w)),
             ) => {
                 /* u and w grounded */
+                if *u == 0 {
+                    /* 0 * v = w: any v if w is zero, none otherwise */
+                    return if *w == 0 {
+                        Ok(state.with_constraint(self))
+                    } else {
+                        Err(())
+                    };
+                }
+                if w % u != 0 {
+                    /* No integer solution */
+                    return Err(());
+                }
                 state
                     .smap_to_mut()
                     .extend(vwalk.clone(), LTerm::from(w / u));
@@ -133,12 +145,25 @@ where
                 LTermInner::Val(LValue::Number(w)),
             ) => {
                 /* v and w grounded */
+                if *v == 0 {
+                    /* u * 0 = w: any u if w is zero, none otherwise */
+                    return if *w == 0 {
+                        Ok(state.with_constraint(self))
+                    } else {
+                        Err(())
+                    };
+                }
+                if w % v != 0 {
+                    /* No integer solution */
+                    return Err(());
+                }
                 state
                     .smap_to_mut()
                     .extend(uwalk.clone(), LTerm::from(w / v));
                 state.run_constraints()
             }
-            (LTermInner::Var(_, _), LTermInner::Var(_, _), LTermInner::Val(LValue::Number(_)))
+            (LTermInner::Var(_, _), LTermInner::Var(_, _), LTermInner::Var(_, _))
+            | (LTermInner::Var(_, _), LTermInner::Var(_, _), LTermInner::Val(LValue::Number(_)))
             | (LTermInner::Var(_, _), LTermInner::Val(LValue::Number(_)), LTermInner::Var(_, _))
             | (LTermInner::Val(LValue::Number(_)), LTermInner::Var(_, _), LTermInner::Var(_, _)) => {
                 /* Not enough terms grounded to verify constraint. */
